@@ -9,7 +9,9 @@
 (* every read must return and are replayed on the real package.                     *)
 EXTENDS Integers, Sequences, TLC, Json, FiniteSets
 CONSTANTS MaxOps, Widths, Bursts,
-          Fam      \* enabled operation families: subset of {"stack", "frame", "global", "closure", "clone"}
+          Fam,     \* enabled operation families: subset of {"stack", "frame", "global", "closure", "clone", "mini"}
+                   \* ("mini": calls through captured frames, return, clone, switch, captured read only -- a narrow alphabet for long histories)
+          Deep     \* BOOLEAN: start from three nested calls with a captured frame (closure stack of length 3, so that its storage has spare capacity)
 VARIABLES mems,   \* Seq of [frames: Seq(frameId), base: Seq(val), clos: Seq(ref), dead: BOOLEAN]
           fr,     \* frameId -> [w, first, last, scratch: Seq(val)]
           globals, \* "ga"/"gb" -> value, shared by all memories
@@ -18,8 +20,14 @@ vars == <<mems, fr, globals, cur, refs, nextv, hist>>
 Last(s) == s[Len(s)]
 Front(s) == SubSeq(s, 1, Len(s) - 1)
 NilV == 0
-Init == /\ mems = << [frames |-> <<>>, base |-> <<>>, clos |-> <<>>, dead |-> FALSE] >>
-        /\ fr = <<>> /\ globals = [g \in {"ga", "gb"} |-> 0] /\ cur = 1 /\ refs = <<>> /\ nextv = 1 /\ hist = <<>>
+F1(a) == [w |-> 1, first |-> a, second |-> a, last |-> a, scratch |-> <<-1>>]
+Init == IF ~Deep
+        THEN /\ mems = << [frames |-> <<>>, base |-> <<>>, clos |-> <<>>, dead |-> FALSE] >>
+             /\ fr = <<>> /\ globals = [g \in {"ga", "gb"} |-> 0] /\ cur = 1 /\ refs = <<>> /\ nextv = 1 /\ hist = <<>>
+        ELSE /\ mems = << [frames |-> <<1, 2, 3>>, base |-> <<>>, clos |-> <<0, 1, 1>>, dead |-> FALSE] >>
+             /\ fr = << F1(1), F1(2), F1(3) >> /\ globals = [g \in {"ga", "gb"} |-> 0] /\ cur = 1 /\ refs = <<1>> /\ nextv = 4
+             /\ hist = << [op |-> "call", a |-> 1, b |-> 0, r |-> 1], [op |-> "capture", a |-> 1, b |-> 0, r |-> 0],
+                          [op |-> "call", a |-> 1, b |-> 1, r |-> 2], [op |-> "call", a |-> 1, b |-> 1, r |-> 3] >>
 M == mems[cur]
 HasFrame == Len(M.frames) > 0
 TopId == Last(M.frames)
@@ -41,7 +49,7 @@ Call(w, r) ==
   /\ Can /\ Len(hist) + 1 < MaxOps
   /\ LET id == Len(fr) + 1
          arg == nextv
-     IN /\ fr' = Append(fr, [w |-> w, first |-> arg, last |-> IF w = 1 THEN arg ELSE NilV, scratch |-> <<-1>>])
+     IN /\ fr' = Append(fr, [w |-> w, first |-> arg, second |-> IF w = 1 THEN arg ELSE NilV, last |-> IF w = 1 THEN arg ELSE NilV, scratch |-> <<-1>>])
         /\ mems' = [mems EXCEPT ![cur].frames = Append(@, id), ![cur].clos = Append(@, r)]
         /\ nextv' = nextv + 1
         /\ H("call", w, r, arg)
@@ -49,11 +57,14 @@ Call(w, r) ==
 Ret == /\ Can /\ HasFrame /\ Len(M.frames) > (IF cur = 1 THEN 0 ELSE 1)   \* a clone never returns from its base frame
        /\ mems' = [mems EXCEPT ![cur].frames = Front(@), ![cur].clos = Front(@)]
        /\ H("ret", 0, 0, 0) /\ UNCHANGED <<fr, cur, refs, nextv, globals>>
-Slot(f, s) == IF s = "first" \/ f.w = 1 THEN f.first ELSE f.last
+\* slots: first = index 0 (the argument), second = index 1 (the first local proper), last = index w-1; they coincide for narrow frames
+Slot(f, s) == IF s = "first" \/ f.w = 1 THEN f.first ELSE IF s = "second" THEN (IF f.w = 2 THEN f.last ELSE f.second) ELSE f.last
 SetL(s) == /\ Can /\ HasFrame
            /\ LET f == fr[TopId]
-                  f2 == IF f.w = 1 THEN [f EXCEPT !.first = nextv, !.last = nextv]
-                        ELSE IF s = "first" THEN [f EXCEPT !.first = nextv] ELSE [f EXCEPT !.last = nextv]
+                  f2 == IF f.w = 1 THEN [f EXCEPT !.first = nextv, !.second = nextv, !.last = nextv]
+                        ELSE IF s = "first" THEN [f EXCEPT !.first = nextv]
+                        ELSE IF s = "second" THEN (IF f.w = 2 THEN [f EXCEPT !.second = nextv, !.last = nextv] ELSE [f EXCEPT !.second = nextv])
+                        ELSE (IF f.w = 2 THEN [f EXCEPT !.second = nextv, !.last = nextv] ELSE [f EXCEPT !.last = nextv])
               IN fr' = [fr EXCEPT ![TopId] = f2]
            /\ nextv' = nextv + 1 /\ H("set", s, nextv, 0) /\ UNCHANGED <<mems, cur, refs, globals>>
 GetL(s) == /\ Can /\ HasFrame /\ H("get", s, 0, Slot(fr[TopId], s)) /\ UNCHANGED <<mems, fr, cur, refs, nextv, globals>>
@@ -89,9 +100,11 @@ Emit == /\ Len(hist) = MaxOps /\ hist' = Append(hist, [op |-> "end", a |-> 0, b 
 Next == \/ Emit
         \/ ("stack" \in Fam /\ (Push \/ Pop \/ \E n \in Bursts : PushBurst(n)))
         \/ ("frame" \in Fam /\ (Ret \/ (\E w \in Widths, r \in 0..2 : (r <= Len(refs) /\ (r = 0 \/ "closure" \in Fam) /\ LiveRef(r) /\ Call(w, r)))
-                                   \/ \E s \in {"first", "last"} : SetL(s) \/ GetL(s)))
+                                   \/ \E s \in {"first", "second", "last"} : SetL(s) \/ GetL(s)))
         \/ ("global" \in Fam /\ \E g \in {"ga", "gb"} : SetG(g) \/ GetG(g))
-        \/ ("closure" \in Fam /\ (Capture \/ \E s \in {"first", "last"} : GetC(s)))
+        \/ ("closure" \in Fam /\ (Capture \/ \E s \in {"first", "second", "last"} : GetC(s)))
+        \/ ("mini" \in Fam /\ (Ret \/ Clone \/ Capture \/ GetC("first") \/ (Len(refs) >= 1 /\ LiveRef(1) /\ Call(1, 1))
+                                  \/ (Len(refs) >= 2 /\ LiveRef(2) /\ Call(1, 2)) \/ \E m \in 1..3 : (m <= Len(mems) /\ Switch(m))))
         \/ ("clone" \in Fam /\ (Clone \/ \E m \in 1..3 : (m <= Len(mems) /\ (Switch(m) \/ Kill(m) \/ Recycle(m)))))
 Spec == Init /\ [][Next]_vars
 \* the contract, as invariants of the model itself: reads return the last value written to that variable of that activation
